@@ -58,7 +58,43 @@ STR_NOTE = ("Theorems are about the Lean model of x/stream (types/utils.go arith
             "vs. compiled model on generated and corpus scripts, plus the pure functions (vpure dur/claim/valfee/addsec) on boundary-heavy inputs, every run. "
             "Six genuine defects found here were repaired by fix: commits (see KNOWN_FINDINGS.txt); their witnesses stay in the corpus.")
 
+def is_ent(k):
+    return k.startswith("ent.")
+
+
+ENT_TAGS = ("I", "K", "B", "E", "D ent.", "D bank.bal", "D bank.supply")
+ENT_NOTE = ("Theorems are about the Lean model of x/enterprise (message server, BeginBlocker, eFUND books, fee unlock) over bank-lite, lifted to "
+            "every reachable state of the whole application model (all message kinds, authz nesting of any depth, governance, ante effects, block "
+            "hooks). The tie to the code is differential: the real app driven through ABCI vs. the compiled model on generated and corpus scripts, "
+            "every run; the BeginBlocker statement order and the module-account permission table are regenerated from the source into the "
+            "definitions the theorems are about.")
+
 PROPS = {
+    "C03": {
+        "chain": [chain("ent", 24, 25, 300, 40), chain("quorum", 32, 30, 400, 40), chain("gov", 8, 25, 150, 40), chain("all", 16, 25, 200, 40)],
+        "corpus": ["witness", "regress", "known"],
+        "relevant": rel_kinds(ENT_TAGS, is_ent),
+        "level_text": "Proof: c03_raise_requires_whitelisted, c03_decision_requires_current_signer, c03_one_decision_per_signer (distinct signer addresses in every state of every run), c03_tally_rule (the code's 64-bit tally equals the three-clause rule of the statement) and c03_tally_applies_rule_to_every_raised_order, c03_status_transitions_and_terminal_frozen (raised->accepted->completed | raised->rejected along every run; rejected/completed orders identical for ever), c03_completed_in_the_following_block (depends on the regenerated BeginBlocker order), c03_completion_credits_exactly_the_amount, c03_queues_match_status.",
+        "level_note": ENT_NOTE + " The duplicate-decision defect (upper-case spelling) was repaired by a fix: commit; its witness stays in the corpus.",
+        "assumptions": ["EntQ: the 64-bit purchase-order id counter has not reached 2^64-1", "MinAccepts < 2^63 for the plain-arithmetic reading of the tally (Params.Validate bounds it by the number of signers)"],
+    },
+    "C04": {
+        "chain": [chain("fees", 24, 25, 300, 40), chain("ent", 16, 25, 200, 40), chain("all", 16, 25, 200, 40)],
+        "corpus": ["witness", "regress", "known"],
+        "relevant": rel_kinds(ENT_TAGS, lambda k: is_ent(k) or is_reg(k) or k == "bank.send"),
+        "level_text": "Proof: c04_books_balance (in every state of every run escrow balance = total locked = sum of locked entries, total spent = sum of spent entries, all non-negative amounts of the enterprise denomination), c04_locked_plus_spent_eq_purchased (per account), c04_escrow_moves_only_by_completion_or_unlock (every elementary step of every message kind), c04_send_to_escrow_rejected, c04_escrow_blocked_and_minters (regenerated permission table); the saturating branches of decrementLockedUnd are proved unreachable.",
+        "level_note": ENT_NOTE,
+        "assumptions": ["BooksQ: BankSane (LockedCoins never negative: SDK contract), EntQ, and governance has not changed the enterprise denomination (known finding C14/denom-change)",
+                        "genesis: bank-lite well-formed, no vesting module accounts, empty enterprise escrow"],
+    },
+    "C02": {
+        "chain": [chain("ent", 24, 25, 300, 40), chain("all", 16, 25, 200, 40), chain("authz", 8, 20, 100, 30), chain("gov", 8, 20, 100, 30)],
+        "corpus": ["witness", "regress", "known"],
+        "relevant": rel_kinds(("I", "K", "B", "E", "D ent.po", "D ent.aq", "D bank.supply", "D bank.bal", "D bank.fees"), lambda k: True),
+        "level_text": "Proof: c02_supply_changes_only_by_completion (over every elementary step of every message kind, nesting, ante effect and block hook the supply of every denomination is unchanged, except the completion of an accepted order, which adds exactly its amount in the enterprise denomination), c02_mint_adds_exactly, c02_mint_sites_and_permissions (MintCoins call sites, no BurnCoins call, no mint module, Minter holders: regenerated from the source every run).",
+        "level_note": ENT_NOTE + " Supply and balances are those of bank-lite (scenario and module accounts); staking/distribution/gov-deposit movements of the validator environment are outside the model and are compared as the environment-adjusted supply line of the digest. 'Sum of balances = supply' is checked on the implementation side by the bank's registered total-supply invariant each block (correspondence oracle), not proved in the model.",
+        "assumptions": ["BooksQ as in C04", "IBC transfer (the other Minter) is not exercised: no channels exist in the scenario"],
+    },
     "C16": {
         "chain": [chain("gov", 24, 25, 300, 40), chain("all", 16, 25, 200, 40)],
         "pure": [{"kinds": ["entparams", "regparams", "strparams"], Q: 1500, T: 100000}],
